@@ -1,6 +1,7 @@
 #!/bin/sh
 # usage: all_seeds.sh  -- apply every seeded change in turn to /repo, run the check of its property, undo; one line per seed
 cd /verif
+export PYVC_EVIDENCE_DIR=${TMPDIR:-/tmp}/seed_evidence   # keep the committed evidence of the clean tree
 for d in seeded/*/; do
   s=$(basename $d); p=${s%-*}
   git -C /repo apply /verif/$d/patch.diff || { echo "$s PATCH-FAILS"; continue; }
